@@ -246,9 +246,22 @@ class AnsiString:
         s = str(s) # In case this is an AnsiStr, get the raw string rather than its overrides
         current_settings:Dict[AnsiParamEffect, AnsiSetting] = {}
         parsed_str = ParsedAnsiControlSequenceString(s, False, ansi_graphic_rendition_code_terminator)
-        self._s = parsed_str.unformatted_str
-        self._fmts = {}
+        # Only a parameter string made of digits and separators is a graphic rendition. Anything else which ends with
+        # "m" is a different control function (ex: the private sequence ESC[>4;2m) and stays in the text as it is.
+        self._s = ''
+        last_key = 0
+        graphic_sequences:Dict[int,list] = {}
         for key, value_list in parsed_str.sequences.items():
+            self._s += parsed_str.unformatted_str[last_key:key]
+            last_key = key
+            for value in value_list:
+                if re.search(r'^[0-9; ]*$', value.sequence):
+                    graphic_sequences.setdefault(len(self._s), []).append(value)
+                else:
+                    self._s += ansi_control_sequence_introducer + value.sequence + value.terminator
+        self._s += parsed_str.unformatted_str[last_key:]
+        self._fmts = {}
+        for key, value_list in graphic_sequences.items():
             for value in value_list:
                 if key >= len(self._s):
                     break
